@@ -14,7 +14,7 @@ from . import common, geo
 
 ID = "C07"
 LEVEL = "exploration"
-RULE = ("Hypothesis-generated programs (scalar DAGs, bundles, entity programs, gated cells) x a generated invocation of the REAL "
+RULE = ("Hypothesis-generated programs (scalar DAGs, bundles, entity programs, gated cells, folded multi-row conditions over same-named operands) x a generated invocation of the REAL "
         "entry points as subprocesses: {source file, -i string} x {python -m dsl_compiler, the console-script launcher "
         "dsl_compiler.cli:main, python compile.py} x {blueprint string, --json} x {stdout, -o file} x {--no-optimize, "
         "--power-poles T, --name}. Oracle: (1) exit status 0 and the text decodes (base64+zlib+JSON or JSON) to a blueprint "
@@ -36,8 +36,10 @@ def budget(tier):
 @st.composite
 def strategy_(draw, tier):
     steer = known.active("shared-network-leak")
-    kind = draw(st.sampled_from(["scalar", "scalar", "bundle", "entity", "memory"]))
-    if kind == "scalar":
+    kind = draw(st.sampled_from(["scalar", "scalar", "bundle", "entity", "memory", "rows"]))
+    if kind == "rows":
+        prog = draw(gen.same_name_rows_program())
+    elif kind == "scalar":
         prog = draw(gen.scalar_program(early_virtual=True, linear=steer, max_stmts=5))
     elif kind == "bundle":
         prog = draw(gen.bundle_program(steer=steer, max_stmts=4))
